@@ -182,6 +182,7 @@ func (mi *MessageInfo) unmarshalPointerLazy(b []byte, p pointer, groupTag protow
 	var presence presence
 	var lazyIndex []protolazy.IndexEntry
 	var lastNum protowire.Number
+	lastIndexed := false
 	outOfOrder := false
 	lazyDecode := false
 	presence = p.Apply(mi.presenceOffset).PresenceInfo()
@@ -373,8 +374,12 @@ func (mi *MessageInfo) unmarshalPointerLazy(b []byte, p pointer, groupTag protow
 		}
 		b = b[n:]
 		end := start - len(b)
-		if lazyDecode && f != nil && f.isLazy {
-			if num != lastNum {
+		// Only records that were consumed as the lazy field belong in its
+		// index; a record with the wrong wire type was added to the unknown
+		// fields above and must not be part of the lazy span as well.
+		indexed := lazyDecode && f != nil && f.isLazy && (err == nil || discardUnknown)
+		if indexed {
+			if num != lastNum || !lastIndexed {
 				lazyIndex = append(lazyIndex, protolazy.IndexEntry{
 					FieldNum: uint32(num),
 					Start:    uint32(pos),
@@ -391,6 +396,7 @@ func (mi *MessageInfo) unmarshalPointerLazy(b []byte, p pointer, groupTag protow
 		}
 		pos = end
 		lastNum = num
+		lastIndexed = indexed
 	}
 	if groupTag != 0 {
 		return out, errors.New("missing end group marker")
